@@ -290,14 +290,15 @@ fn case(t: &mut Tape, st: &mut Stats) -> Verdict {
         caller_vars.push(name);
     }
     // collections
-    script.push_str("ha = array a \"b c\" \"\" a\nhe = array\nhm = map\nhx = map_put ${hm} k1 v1\nhx = map_put ${hm} \"k 2\" \"\"\nhx = unset hx\nhme = map\nhs = set_new x y\nhse = set_new\nhr = array gone\nhrr = release ${hr}\nhrr = unset hrr\nhb = string_to_bytes \"héllo\"\n");
+    script.push_str("ha = array a \"b c\" \"\" a\nhe = array\nhm = map\nhx = map_put ${hm} k1 v1\nhx = map_put ${hm} \"k 2\" \"\"\nhx = unset hx\nhme = map\nhs = set_new x y\nhse = set_new\nhr = array gone\nhrr = release ${hr}\nhrr = unset hrr\nhb = string_to_bytes \"héllo\"\nhn = array ${hm} ${hs} ${ha} plain\n");
     // one case in fifty: the caller already holds more than a thousand live collections
     if t.chance(1, 50) {
         script.push_str("bulk = range 0 1040\nfor bulk_i in ${bulk}\n    bulk_h = array x\nend\n");
         st.class("caller-holds-over-1024-live-collections");
     }
     let w = World {
-        arrays: vec!["ha".into(), "he".into()],
+        // hn holds the handles of the caller's other collections (an array of collections)
+        arrays: vec!["ha".into(), "he".into(), "hn".into()],
         maps: vec!["hm".into(), "hme".into()],
         sets: vec!["hs".into(), "hse".into()],
         released: "hr".into(),
